@@ -23,6 +23,8 @@ class C07(F.Spec):
     def cases(self, rng, tier):
         for i in range(60 if tier == "quick" else 600):
             yield self.gen_probe(rng, i)
+        for i in range(30 if tier == "quick" else 300):
+            yield self.gen_setdur(rng, i)
         for i in range(60 if tier == "quick" else 600):
             yield self.gen_scenario(rng, i)
         for i in range(40 if tier == "quick" else 400):
@@ -48,9 +50,32 @@ class C07(F.Spec):
             ops.append("cdcb %d" % now)
         return F.Case("probe%d" % i, ops, {"tags": ["kind:probe"], "kind": "probe"})
 
+    def gen_setdur(self, rng, i):
+        """the decision of supla_esp_gpio_relay_set_duration_timer on the real function: staircase time configured or not,
+        countdown capability or not, value, requested duration, published remaining time (equal to the request = restore)"""
+        nrel = 4
+        cflags = [rng.choice([0, 0x01000000]) for _ in range(nrel)]
+        t2 = [rng.choice([0, 0, 700, 5000]) for _ in range(nrel)]
+        ops = ["board relay%d" % nrel] + ["relflags %d 0 %d" % (k, cflags[k]) for k in range(nrel)] + ["init"]
+        ops += ["staircase %d %d 0" % (k, t2[k]) for k in range(nrel) if t2[k]]
+        mo = []
+        for _ in range(20):
+            ch = rng.randrange(nrel)
+            v = rng.choice([0, 1, 1])
+            d = rng.choice([0, 0, 1, 300, 700, 5000, 60000])
+            left = rng.choice([0, d, d, 250, 5000])
+            ops.append("setdur %d %d %d %d" % (ch, v, d, left))
+            mo.append("setdur %d %d %d %d %d" % (t2[ch], v, d, left, 1 if cflags[ch] else 0))
+        return F.Case("setdur%d" % i, ops, {"tags": ["kind:setdur"], "kind": "setdur", "mops": mo})
+
     def gen_scenario(self, rng, i):
         nrel = rng.choice([1, 2, 4, 8])
-        ops = ["board relay%d" % nrel, "init", "adv 200"]
+        ops = ["board relay%d" % nrel, "init"]
+        # staircase channels: every switch-on runs the configured time whatever duration the command carries
+        for k in range(nrel):
+            if rng.random() < .25:
+                ops.append("staircase %d %d 0" % (k, rng.choice([300, 1000, 2500, 12000])))
+        ops.append("adv 200")
         cmds = []
         now = 200
         for _ in range(rng.randint(1, 6)):
@@ -95,6 +120,13 @@ class C07(F.Spec):
 
     def derive_model(self, case, raw):
         ops, exp = ["init"], [[]]
+        if case.meta.get("kind") == "setdur":
+            mo = list(case.meta["mops"])
+            for op, g in zip(case.ops, raw):
+                if op.startswith("setdur "):
+                    ops.append(mo.pop(0))
+                    exp.append([x for x in g if x.startswith("DUR ")])
+            return "\n".join(ops) + "\n", exp
         for op, g in zip(case.ops, raw):
             if op.startswith("cdset "):
                 ops.append(op)
@@ -135,6 +167,7 @@ class C07(F.Spec):
         edges = {}
         nrel = 2
         flags, cflags = {}, {}
+        stair = {}
         boot = None
         pub = {}          # channel -> published remaining time (supla_esp_state.Time2Left)
         active = {}       # channel -> (t0, d, v) of the running timer
@@ -149,6 +182,8 @@ class C07(F.Spec):
                 nrel = int(t[1][5:])
             elif t[0] == "relflags":
                 flags[int(t[1])], cflags[int(t[1])] = int(t[2]), int(t[3])
+            elif t[0] == "staircase":
+                stair[int(t[1])] = int(t[2])
             elif t[0] == "adv":
                 now += int(t[1])
             elif t[0] == "msg" and t[1] == "110":
@@ -158,6 +193,8 @@ class C07(F.Spec):
                 pl = bytes.fromhex(t[2])
                 ch, d, v = pl[4], int.from_bytes(pl[5:9], "little"), pl[9]
                 v = 1 if v else 0
+                if stair.get(ch, 0) > 0:
+                    d = stair[ch] if v == 1 else 0      # the configured staircase time, not the command's
                 cmds.append((now, ch, v, d))
                 if d > 0 and ch < nrel and (v == 1 or cflags.get(ch, 0x01000000) & 0x01000000):
                     active[ch] = (now, d, v)
